@@ -40,7 +40,7 @@ func TestCheck(t *testing.T) {
 	ev.Assume("a single ordering race that shows with probability p per build is missed with probability (1-p)^n; n is reported as builds_per_class")
 	nGen, nRepeat, nCLI := 10, 8, 3
 	if drv.Thorough() {
-		nGen, nRepeat, nCLI = 200, 24, 6
+		nGen, nRepeat, nCLI = 60, 24, 6
 	}
 	ev.Set("builds_per_class", nRepeat)
 	var progs []prog
